@@ -290,7 +290,7 @@ PROPS["C12"] = dict(
     drive=dict(quick=dict(n=1500, size=3), thorough=dict(n=40000, size=6)),
     nontrivial=lambda e: (e["op"] == "reader" and len(e["args"]["input"]) >= 2) or (e["op"] == "decode" and len(e["args"]["bytes"]) > 10),
     corrupt=_corrupt_c12,
-    rule="cases: every input of <= MaxLen (5 quick / 7 thorough) bytes over {')', \"'\", CR, LF, 'x'} x every chunking (TLC InnerRead with any k), each also in front of a real document; seeded: every junk start byte, garbage incl. non-ASCII, \\n / \\r\\n / bare \\r / \\r x \\n endings, header only, valid / truncated / corrupted regular, Hermes and index documents, chunk schedules with 1-byte reads and boundaries at/inside the header end; distinct = distinct (op, args); non-trivial = >= 2 input bytes (reader) or a document (decode)",
+    rule="cases: every input of <= MaxLen (5 quick / 6 thorough) bytes over {')', \"'\", CR, LF, 'x'} x every chunking (TLC InnerRead with any k), each also in front of a real document; seeded: every junk start byte, garbage incl. non-ASCII, \\n / \\r\\n / bare \\r / \\r x \\n endings, header only, valid / truncated / corrupted regular, Hermes and index documents, chunk schedules with 1-byte reads and boundaries at/inside the header end; distinct = distinct (op, args); non-trivial = >= 2 input bytes (reader) or a document (decode)",
     assumptions=COMMON_ASSUMPTIONS + ["hook H2 (cfg sourcemap_verif) re-exports StripHeaderReader/strip_junk_header; add-only"],
 )
 HOOK_COMMITS.append("95aad40")
@@ -612,9 +612,60 @@ PROPS["E01"] = dict(
     mc=[dict(module="MC_MapExt", cfg="MC_MapExt_quick.cfg", tiers=("quick",), workers=8),
         dict(module="MC_MapExt", cfg="MC_MapExt_thorough.cfg", tiers=("thorough",), workers=12)],
     trace="Trace_E01",
+    selftest_include_free=True,
     drive=dict(quick=dict(n=300, size=3), thorough=dict(n=5000, size=8)),
     nontrivial=lambda e: True,
     corrupt=_corrupt_e01,
     rule="every ordered position list of MC_MapExt x 20 queries; seeded maps and index documents with x_facebook_offsets / x_metro_module_paths",
+    assumptions=COMMON_ASSUMPTIONS,
+)
+
+def _corrupt_e03(e):
+    p2 = e["out"]["p2"]
+    if p2["sources"]:
+        p2["sources"][0] = p2["sources"][0] + [120]
+        return True
+    return False
+
+PROPS["E03"] = dict(
+    level="model_checking",
+    level_text="extension: the '~' rewrite option (find_common_prefix over absolute sources, component-wise), specified as found in CommonPrefix.tla; TLC checks prefix-of-all, component boundary and split/rejoin on every list of <= MaxSrc paths from a 9-path pool",
+    level_note="beyond the listed properties (C09's quantifier is 'explicit prefixes'); not registered in MANIFEST.json",
+    technique="TLA+ as-found specification, TLC bounded model checking, trace validation of real rewrite('~') results",
+    mc=[dict(module="MC_CommonPrefix", cfg="MC_CommonPrefix_quick.cfg", tiers=("quick",), workers=8),
+        dict(module="MC_CommonPrefix", cfg="MC_CommonPrefix_thorough.cfg", tiers=("thorough",), workers=12)],
+    trace="Trace_E03",
+    selftest_include_free=True,
+    drive=dict(quick=dict(n=2000, size=3), thorough=dict(n=40000, size=3)),
+    nontrivial=lambda e: len(e["args"]["raw"]) >= 2,
+    corrupt=_corrupt_e03,
+    rule="every source list of MC_CommonPrefix; seeded lists over 16 paths (absolute, relative, drive letters, back-slashes, shared character but not component prefixes, non-ASCII), optional root and explicit prefixes",
+    assumptions=COMMON_ASSUMPTIONS,
+)
+
+def _corrupt_e02(e):
+    for m in e["out"]["mods"]:
+        if m["toks"]:
+            m["toks"][0][1] += 1
+            return True
+    if e["out"]["mods"]:
+        m = e["out"]["mods"][0]
+        m["k"] = "err" if m["k"] == "ok" else "ok"
+        return True
+    return False
+
+PROPS["E02"] = dict(
+    level="exploration",
+    level_text="extension: split_ram_bundle specified as found in SplitBundle.tla (composition of IndexMap!flatten, MapExt!seek, SourceView lines/UTF-16 lengths) with two named deviations (SplitSkipsFirstToken, SplitStopsAtWideColumn); seeded bundles + index maps only (no TLC enumeration of its own: the composed operators are model-checked in their own modules)",
+    level_note="beyond the listed properties; not registered in MANIFEST.json",
+    technique="TLA+ as-found specification composed from IndexMap/MapExt/SourceView, trace validation of real split_ram_bundle results",
+    mc=[dict(module="MC_MapExt", cfg="MC_MapExt_quick.cfg", tiers=("quick", "thorough"), workers=4, gen=False)],
+    trace="Trace_E02",
+    selftest_include_free=True,     # "free" marks events showing a named deviation here; they are fully judged
+    drive=dict(quick=dict(n=1500, size=3), thorough=dict(n=30000, size=5)),
+    nontrivial=lambda e: len(e["args"]["flat"]) >= 2,
+    corrupt=_corrupt_e02,
+    selftest_min=0.9,
+    rule="seeded bundles of 1..5 modules (1..3 lines each, ASCII / 2-byte / astral characters, empty slots) with an index map whose sections sit at the modules' starting lines; distinct = distinct case",
     assumptions=COMMON_ASSUMPTIONS,
 )
